@@ -16,7 +16,7 @@
    below the capacity in total; the data-carrying channels are unrestricted (below / at / above capacity).
    Not proved here (partial): the remote placement (comms threads, socket, ssh) - differential only;
    "every fault the doer *answered* is seen by the boss before the Done marker" is C07's theorem. *)
-From RJ Require Import Base.Prelude Model.Shutdown Proofs.ShutdownProofs Proofs.ShutdownInv Proofs.ShutdownNoStuck Proofs.ShutdownImpl Proofs.ShutdownBelow.
+From RJ Require Import Base.Prelude Model.Shutdown Proofs.ShutdownProofs Proofs.ShutdownInv Proofs.ShutdownNoStuck Proofs.ShutdownImpl Proofs.ShutdownBelow Model.Async Proofs.AsyncProofs.
 
 Theorem C09_no_stuck : forall c x s,
   fixed c = true -> ctl_ok c x -> reach c x s -> final s = true \/ exists s', step c s s'.
@@ -77,8 +77,18 @@ Example C09_example :
   ctl_ok (w_cfg true) w_sc /\ final s = true /\ bexit (bo s) = 12%N /\ slife (sd s) = ExitErr.
 Proof. split; [split; apply N.leb_le; vm_compute; reflexivity | vm_compute; repeat split]. Qed.
 
+(* The sync layer above it (Model/Async.v: the boss streaming the plan's commands, the destination doer executing
+   and answering in order, the final marker): every interleaving is finite - at most 3 * |plan| + 4 transitions -
+   whatever the commands do and whichever of them fail. *)
+Theorem C09_sync_layer_step_decreases : forall exec s s', Async.astep exec s s' -> ameasure s' < ameasure s.
+Proof. exact astep_decreases. Qed.
+Theorem C09_sync_layer_terminates : forall exec d0 steps n s,
+  apath exec n (Async.ainit d0 steps) s -> n <= 3 * length steps + 4.
+Proof. exact async_terminates. Qed.
+
 Print Assumptions C09_no_stuck.
 Print Assumptions C09_terminates.
 Print Assumptions C09_exit_nonzero.
 Print Assumptions C09_refuted_unfixed.
 Print Assumptions C09_holds_below_capacity.
+Print Assumptions C09_sync_layer_terminates.
